@@ -70,6 +70,7 @@ FOREIGN = {
         (("rules.C01", "mode_rules", "ctx"), "the mode an extractor applies is the recorded one: unix_mode() of a Unix-made entry is attrs >> 16, untouched by DOS attribute bits"),
         (("rules.C03", "acc_rules", "facts"), "unix_mode() reports the recorded mode"),
         (("rules.C03", "dosmode_rules", "facts"), "permission bits derived from DOS attributes"),
+        (("rules.C19", "table_rules", "facts"), "extraction succeeds for every safe name: the CP437 decoder is total (its ASCII fast path takes bytes below 0x80 only, so no name makes it panic)"),
     ],
     "C08": [
         (("rules.C02", "offs_rules", "ctx"), "a large_file entry's data start and accounting start lie behind its ZIP64 placeholder (positions observed on the stream)"),
@@ -134,6 +135,7 @@ FOREIGN = {
         (RREF, "the right password is refused nowhere new (entry length, method, flags ...)"),
         (OPENERS, "an entry opened with encryption keys is written encrypted, whichever opener is used"),
         (ENTRYF, "the encrypted flag is set exactly when keys were given"),
+        (("rules.C01", "patch_rules", "facts"), "an encrypted entry reads back with the right password: its recorded compressed size covers the 12-byte encryption header, i.e. it is the distance the sink moved and not a count of plaintext bytes, for every method"),
     ],
     "C17": [
         (("rules.C01", "patch_rules", "facts"), "an entry with extra data or padding round-trips: its recorded compressed size is what lies between the (advanced) data start and the end of its data"),
@@ -145,6 +147,7 @@ FOREIGN = {
         (("rules.shared_count", "count_rule", "facts"), "the writer accounts exactly the file-data bytes the sink accepted"),
         (WREF, "aligned / extra-data entries are refused exactly where the reviewed validation refuses them"),
         (OPENERS, "start_file_aligned / start_file_with_extra_data open the entry that was asked for"),
+        (XWALK, "an entry carrying caller-supplied extra data (any record the validator admits, up to 65531 payload bytes) is still opened and read back: the reader steps over each unknown record by its full 16-bit length"),
     ],
     "C18": [
         (("rules.C15", "write_rules", "ctx"), "the encryption option changes only the keys (builder methods keep the caller's timestamp)"),
